@@ -374,7 +374,7 @@ def loops_run_to_completion(chk, rule, fn, config, paths, fail_outcome=lambda p:
         last = {}
         for d in p.decisions:
             v = strip(d.value)
-            if is_iter_next(v):
+            if is_iter_next(v) and not is_call(v[1], r'Peekable::peek$'):      # (looking ahead does not advance the loop)
                 site = (d.fn.defp, d.bb)
                 nsites.add(site)
                 last[site] = decision_variant(p_facts(d), d)
@@ -772,7 +772,7 @@ def no_panic_unless_not_panicking(chk, F, rule, config, fn, rows):
     return n
 
 
-READONLY_STD = re.compile(r'^(std::vec::Vec::(len|is_empty|capacity)|core::slice::<impl \[T\]>::(len|is_empty|first|last)|<std::vec::Vec<T, A> as core::ops::Deref>::deref|core::option::Option::(is_some|is_none))$')
+READONLY_STD = re.compile(r'^(core::mem::take|std::vec::Vec::(len|is_empty|capacity)|core::slice::<impl \[T\]>::(len|is_empty|first|last)|<std::vec::Vec<T, A> as core::ops::Deref>::deref|core::option::Option::(is_some|is_none))$')
 
 
 def locked_census(chk, F, rule, config, allow, floor):
@@ -795,6 +795,7 @@ def locked_census(chk, F, rule, config, allow, floor):
         ps = symex.Interp(F).run(f) if f.kind != 'promoted' else []
         recv_field = None
         closure = None
+        fn_item = None
         for p in ps:
             for e in p.calls(r'^private::MutexIsh::locked$'):
                 if e.bb != bb:
@@ -805,29 +806,31 @@ def locked_census(chk, F, rule, config, allow, floor):
                 c = strip(a1)
                 if c[0] == 'agg' and c[1] == 'closure':
                     closure = c[2]
+                elif c[0] == 'c' and isinstance(c[1], tuple) and c[1] and c[1][0] == 'fn':
+                    fn_item = str(c[1][1])      # a function item handed to `locked` (`locked(core::mem::take)`): the one call made under the lock
         if recv_field is None:
             # closure may capture the mutex (e.g. `mutex.locked(..)` inside a returned closure): use the operand type
             recv_field = 'captured'
             a1 = t['args'][1]
         cf = F.fns.get(closure) if closure else None
-        if cf is None:
+        if cf is None and not (fn_item and re.match(r'^(core|std|alloc)::', fn_item)):
             chk.ob(rule, 'closure passed to locked at %s is a local closure literal' % f.defp, False, config=config, fn=f,
-                   site='locked@bb', what='non-literal closure under lock', unrecognised=True, found=closure, expected='closure literal')
+                   site='locked@bb', what='non-literal closure under lock', unrecognised=True, found=closure or fn_item, expected='closure literal')
             continue
         allowed = None
         for fld_rx, callees in allow:
             if re.search(fld_rx, recv_field):
                 allowed = callees
-        for cbb, ct in cf.calls(include_cleanup=True):
-            n = symex.callee_name(ct)
-            kind = symex.callee_kind(ct)
+        under = [(symex.callee_name(ct), symex.callee_kind(ct)) for cbb, ct in cf.calls(include_cleanup=True)] if cf is not None else [(fn_item, 'item')]
+        for n, kind in under:
             # (read-only inspection of the std container under the lock is mock-internal std code too: it runs no user code)
             ok = allowed is not None and kind in ('item', 'intrinsic') and (any(re.search(rx, n) for rx in allowed) or bool(READONLY_STD.search(n)))
-            chk.ob(rule, 'code run under the lock on `%s` is mock-internal (%s)' % (recv_field, n), ok, config=config, fn=cf,
+            chk.ob(rule, 'code run under the lock on `%s` is mock-internal (%s)' % (recv_field, n), ok, config=config, fn=cf or f,
                    site='under-lock:%s' % recv_field, what='call under lock: %s' % n,
                    found={'callee': n, 'kind': kind}, expected=allowed or 'a known lock site')
         # no dyn / indirect / user-generic calls at all
-        chk.analysed(cf)
+        if cf is not None:
+            chk.analysed(cf)
     chk.floor(rule, 'MutexIsh::locked call sites', count, floor, config=config)
     # nobody but MutexIsh's own methods touches MutexIsh.inner
     for fn in F.fns.values():
@@ -893,6 +896,9 @@ def attributed(F, accesses, kinds=None, root=False):
 
 def owners_of(F, b, root=False, _depth=0):
     owner = F.fns.get(b.root) if b.kind in ('closure', 'promoted') and b.root in F.fns else b
+    tw = symex.twins(F).get(owner.defp) if owner is not None else None
+    if tw:
+        return {tw[0]}       # (the body of a reference function that moved here: see symex.twins)
     if owner is not None and symex.is_new_helper(owner) and _depth < 4:
         ups = F.callers_of(owner.defp, collapse_helpers=False)
         if ups:
